@@ -812,7 +812,8 @@ class Run:
       # combinators are fine on the clean twin, no mesh, no restart: the deployed run
       # itself went wrong (e.g. state leaking between calls). If its state breaks a
       # structural invariant that is a C11 matter; otherwise report the divergence.
-      for world, st, coords in (('sut', sut.state, sut.coords),):
+      for world, st, coords in ((('sut', sut.state, sut.coords),)
+                                if self.prop == 'C11' else ()):
         for oracle, msg in self.monitor.check(st, coords, sut.n, ref.times[sut.n],
                                               self.job['dt'], world):
           self.report(oracle, msg + ' (and the run left the reference trajectory)', i,
